@@ -26,6 +26,26 @@ impl Channel {
         }
     }
 
+    #[cfg(feature = "verif-hooks")]
+    pub(crate) fn verif_dump(
+        &self,
+    ) -> (crate::verif::DumpChannelEnd, crate::verif::DumpChannelEnd) {
+        fn end(state: &ChannelEndState) -> crate::verif::DumpChannelEnd {
+            match state {
+                ChannelEndState::Unclaimed => crate::verif::DumpChannelEnd::Unclaimed,
+                ChannelEndState::Claimed { owner, capacity } => {
+                    crate::verif::DumpChannelEnd::Claimed {
+                        owner: owner.verif_id(),
+                        capacity: *capacity,
+                    }
+                }
+                ChannelEndState::Closed => crate::verif::DumpChannelEnd::Closed,
+            }
+        }
+
+        (end(&self.sender), end(&self.receiver))
+    }
+
     pub(crate) fn check_close(
         &self,
         conn_id: &ConnectionId,
